@@ -21,7 +21,7 @@ TECH = {
     "C12": "property-based testing: exhaustive enumeration of small conditional skeletons + Hypothesis-sampled larger ones against a skeleton interpreter",
     "C13": "property-based testing (Hypothesis): section trees and reference forms against a scope resolver written from the manual",
     "C13": "property-based testing (Hypothesis): generated section trees / local scopes / temporaries / symbol stacks against an independent scope resolver (value run + one error run per fault class)",
-    "C14": "property-based testing (Hypothesis) over complete instruction-form tables (62 ISA entries, ~16 700 forms) against independent reference encoders",
+    "C14": "property-based testing (Hypothesis) over complete instruction-form tables (91 ISA entries, ~22 700 forms) against independent reference encoders",
     "C15": "property-based testing (Hypothesis): round trip asl -> dasl -> asl on generated instruction streams",
     "C16": "property-based testing (Hypothesis): metamorphic spelling rewrites of the golden corpus anchored on the recorded .ori images",
     "C17": "property-based testing (Hypothesis): differential over report-option subsets / placement / language / cwd; idempotence of reports",
